@@ -332,41 +332,33 @@ theorem inGroup_same (labels : List (Nat × Nat × Nat)) (k : GroupKey) (m1 m2 :
 
 /-! ### weights written by `extendMinor` -/
 
-theorem extendSteps_factors (dtFine : List Rat) (dtc : Rat) (r : MapRow) (I : List Nat) (acc : Rat) :
-    (extendSteps dtFine dtc false r I acc).map (·.factor) = I.map fun t => dtFine.getD t 0 / dtc := by
-  induction I generalizing acc with
-  | nil => simp [extendSteps]
-  | cons t ts ih => simp [extendSteps, ih]
+theorem extendSteps_factors (dtFine : List Rat) (dtc : Rat) (r : MapRow) (I : List Nat) :
+    (extendSteps dtFine dtc r I).map (·.factor) = I.map fun t => dtFine.getD t 0 / dtc * r.factor := by
+  simp [extendSteps]
 
-theorem extendSteps_steps (dtFine : List Rat) (dtc : Rat) (hf : Bool) (r : MapRow) (I : List Nat) (acc : Rat) :
-    (extendSteps dtFine dtc hf r I acc).map (·.step) = I := by
-  induction I generalizing acc with
-  | nil => simp [extendSteps]
-  | cons t ts ih => simp [extendSteps, ih]
-
-/-- every row written without the factor column: same variable, asset, node, type, name as the coarse
-    row; its step is a minor step and its factor is `dt_fine/dt_coarse` of that step -/
-theorem mem_extendSteps (dtFine : List Rat) (dtc : Rat) (r : MapRow) (I : List Nat) (acc : Rat) (m : MapRow)
-    (h : m ∈ extendSteps dtFine dtc false r I acc) :
-    m.step ∈ I ∧ m.factor = dtFine.getD m.step 0 / dtc ∧ m.var = r.var ∧ m.asset = r.asset ∧
-      m.node = r.node ∧ m.kind = r.kind ∧ m.varName = r.varName ∧ m.isBool = r.isBool := by
-  induction I generalizing acc with
-  | nil => simp [extendSteps] at h
+theorem extendSteps_steps (dtFine : List Rat) (dtc : Rat) (r : MapRow) (I : List Nat) :
+    (extendSteps dtFine dtc r I).map (·.step) = I := by
+  induction I with
+  | nil => rfl
   | cons t ts ih =>
-    simp only [extendSteps, List.mem_cons] at h
-    rcases h with h | h
-    · subst h; simp
-    · obtain ⟨h1, h2⟩ := ih _ h
-      exact ⟨List.mem_cons_of_mem _ h1, h2⟩
+    have : extendSteps dtFine dtc r (t :: ts)
+        = { r with step := t, factor := dtFine.getD t 0 / dtc * r.factor } :: extendSteps dtFine dtc r ts := rfl
+    rw [this, List.map_cons, ih]
+
+/-- every row written for a coarse row: same variable, asset, node, type, name; its step is a minor step
+    and its factor is `dt_fine/dt_coarse` of that step times the factor of the coarse row -/
+theorem mem_extendSteps (dtFine : List Rat) (dtc : Rat) (r : MapRow) (I : List Nat) (m : MapRow)
+    (h : m ∈ extendSteps dtFine dtc r I) :
+    m.step ∈ I ∧ m.factor = dtFine.getD m.step 0 / dtc * r.factor ∧ m.var = r.var ∧ m.asset = r.asset ∧
+      m.node = r.node ∧ m.kind = r.kind ∧ m.varName = r.varName ∧ m.isBool = r.isBool := by
+  unfold extendSteps at h
+  obtain ⟨t, ht, rfl⟩ := List.mem_map.mp h
+  exact ⟨ht, rfl, rfl, rfl, rfl, rfl, rfl, rfl⟩
 
 theorem sum_map_div (L : List Rat) (d : Rat) : (L.map (· / d)).sum = L.sum / d := by
   induction L with
   | nil => simp [Rat.div_def, Rat.zero_mul]
   | cons a L ih => rw [List.map_cons, List.sum_cons, List.sum_cons, ih]; simp only [Rat.div_def]; grind
-
-theorem extendStepsRepaired_factors (dtFine : List Rat) (dtc : Rat) (r : MapRow) (I : List Nat) :
-    (extendStepsRepaired dtFine dtc r I).map (·.factor) = I.map fun t => dtFine.getD t 0 / dtc * r.factor := by
-  simp [extendStepsRepaired]
 
 theorem sum_map_mul_right (L : List Rat) (f : Rat) : (L.map (· * f)).sum = L.sum * f := by
   induction L with
